@@ -6,6 +6,7 @@ import (
 	"go/parser"
 	"go/token"
 	"io/ioutil"
+	"os"
 	"path"
 	"path/filepath"
 	"sort"
@@ -51,6 +52,9 @@ type Case struct {
 	// TimeSuffixPath: the last element of the struct import path ends in "time" ("…/uptime"), so that a
 	// struct-package type called Duration / Time is qualified as `…uptime.Duration` in the generated file.
 	TimeSuffixPath bool
+	// DecoyPrefixOverrides: import_path_overrides entries whose keys are proper string prefixes of the struct
+	// import path without being a path prefix of it (`…/k5` for `…/k5s`): they match no package.
+	DecoyPrefixOverrides bool
 	// PrefixTarget: the target package name is a proper prefix of the struct package name (k5s -> k5).
 	PrefixTarget bool
 	// TypesNamedPkg: the struct package is called `types` (like the framework package the generated file
@@ -58,6 +62,8 @@ type Case struct {
 	TypesNamedPkg bool
 	// MixedCasePkg: the struct package has a Go name with capitals (go_package = "<name>Api").
 	MixedCasePkg bool
+	// CfgDir, when set, is the directory (below the workspace) the configuration file is written to instead of "cfg".
+	CfgDir string
 	// RawParam, when set, replaces the computed parameter string (C16 error cases).
 	RawParam *string
 	// NoWrite: do not place the case in the Go workspace (L1-only cases).
@@ -154,6 +160,13 @@ func (w *Workspace) Prepare(c *Case) {
 		} else {
 			c.Cfg.DefaultPackageName = c.StructImport
 		}
+		if c.DecoyPrefixOverrides {
+			if c.Cfg.ImportPathOverrides == nil {
+				c.Cfg.ImportPathOverrides = map[string]string{}
+			}
+			c.Cfg.ImportPathOverrides[c.StructImport[:len(c.StructImport)-1]] = "example.com/decoy/one"
+			c.Cfg.ImportPathOverrides[c.StructImport[:strings.LastIndex(c.StructImport, "/")+2]] = "example.com/decoy/two"
+		}
 		c.ExpectTFPkg = tp
 	} else {
 		c.StructImport = base
@@ -183,7 +196,12 @@ func (w *Workspace) Prepare(c *Case) {
 	c.YAML = yaml
 	yamlPath := ""
 	if yaml != "" {
-		yamlPath = filepath.Join(w.Dir, "cfg", c.Name+".yaml")
+		dir := "cfg"
+		if c.CfgDir != "" {
+			dir = c.CfgDir
+			os.MkdirAll(filepath.Join(w.Dir, dir), 0o755)
+		}
+		yamlPath = filepath.Join(w.Dir, dir, c.Name+".yaml")
 		ioutil.WriteFile(yamlPath, []byte(yaml), 0o644)
 	}
 	c.Param = descgen.Param(params, yamlPath)
